@@ -545,4 +545,34 @@ def rule_j(ctx: Ctx) -> None:
                 '`<acc>.is_restriction(base_attr)`.')
 
 
-RULES = [rule_a, rule_b, rule_c, rule_d, rule_e, rule_f, rule_g, rule_h, rule_i, rule_j]
+def rule_k(ctx: Ctx) -> None:
+    """Two `##other` constraints are equal as *sets* only when they exclude the same target namespace: the token set {'##other'} is the same for every schema
+    document.  The three operations that shortcut on `self.namespace == other.namespace` therefore look at the target namespaces on that branch (is_restriction does:
+    `'##other' not in self.namespace or self.target_namespace == other.target_namespace`) - sibling agreement."""
+    rule = 'C16.k'
+    c = ctx.idx.cls('xmlschema.validators.wildcards.XsdWildcard')
+    n = 0
+    for meth in ('is_restriction', 'union', 'intersection'):
+        f = c.methods.get(meth)
+        if f is None:
+            raise AnalysisError(f'missing anchor XsdWildcard.{meth}')
+        ctx.analysed(f.qualname)
+        from .common import bool_atoms
+        for x in ast.walk(f.node):
+            if not isinstance(x, ast.If):
+                continue
+            if 'self.namespace == other.namespace' not in bool_atoms(x.test):
+                continue
+            n += 1
+            seg = text(x.test) + ' ' + ' '.join(text(b) for b in x.body)
+            ok = 'target_namespace' in seg
+            ctx.ob(rule, f'XsdWildcard.{meth}: the shortcut on equal namespace tokens compares the target namespaces of two ##other constraints', f.loc(x), ok,
+                   '' if ok else 'the branch treats {##other} of one schema document and {##other} of another as the same set: ' +
+                   ('attribute groups t:h(##other) and b:g(##other) combined admit a urn:b attribute that b:g forbids' if meth == 'intersection' else
+                    'an extension in urn:t of a urn:b type with ##other, adding its own ##other, refuses a urn:t attribute that the base admits'),
+                   key=f'XsdWildcard.{meth}|other-vs-other-targets')
+    ctx.floor(rule, 'shortcuts on equal namespace tokens', n, 3)
+    ctx.explain('C16.k: in is_restriction / union / intersection the `if` whose test contains `self.namespace == other.namespace` mentions `target_namespace` in its test or body.')
+
+
+RULES = [rule_a, rule_b, rule_c, rule_d, rule_e, rule_f, rule_g, rule_h, rule_i, rule_j, rule_k]
